@@ -43,8 +43,13 @@ pub fn run_sc_check(id: &str, tier: &str, seed: u64) -> i32 {
         let z = ZobristHasher::create_zobrist_hasher();
         sc::run(seed, r, id, judge, &z, max_plies)
     });
+    if id == "C04" || id == "C05" {
+        // the same clause observed through the real command loop (H4 probes after position / go)
+        let ns: u64 = if tier == "quick" { 3_000 } else { 60_000 };
+        acc.merge(report::par_acc(ns, |r| sa_checks::run_probe_session(seed, r, id)));
+    }
     let z = ZobristHasher::create_zobrist_hasher();
-    minimise_all(&mut acc, |v| sc::minimise(v, &z));
+    minimise_all(&mut acc, |v| if v.scenario["family"] == "SC" { sc::minimise(v, &z) } else { v.clone() });
     let (rule, level) = match id {
         "C01" => ("referee-legal games from start/curated/synthesised/template positions (castling next to attackers, en-passant pins, promotions), every prefix; generator output compared as a move multiset with the referee; re-entered through from_fen on a quarter of the prefixes. Non-trivial: distinct canonical positions with a castling right, an ep target, the mover in check, or a pawn one step from promotion.", "exploration"),
         "C02" => ("same walks; every successor (and successors of special successors, two plies deep, chained from the engine's own BoardState) compared field by field with referee apply(p, m) and its descriptor with m. Non-trivial: distinct positions at which a castling/ep/promotion/double-step/corner move was generated or had just been played, plus distinct successor-of-special positions.", "exploration"),
@@ -377,6 +382,7 @@ pub fn replay_file(path: &str) -> i32 {
         "SA" => match sc["check"].as_str() {
             Some("C17") => sa_meta::replay_c17(sc),
             Some("C16") => sa_meta::replay_c16(sc),
+            _ if prop == "C04" || prop == "C05" || prop == "C10" => sa_checks::replay_probe_session(sc, &prop),
             _ => {
                 let mut j = sa_checks::Judge::default();
                 match prop.as_str() {
